@@ -13,6 +13,15 @@
                  namely the newest such version, or -- when the version being written is already
                  complete -- the newest earlier one; the built-in fallback (r = 0) only if no
                  such version exists.  Never anything else (r = -1 : corrupt).
+     Durable(r): `base` = the validated versions that were on disk when the update STARTED.  If
+                 there was one, every crash point of the update must still yield "the new one or
+                 the newest earlier one" (= MaxOf(base)): an update may not pass through a state
+                 in which the cache has lost what it had (e.g. by pruning before writing), and
+                 the reader may not ignore it (e.g. by looking at a bounded window of files).
+                 ReadOK includes Durable.
+
+   The cache-size configuration (how many versions are kept; cleanup of older ones) is part of
+   the state space: CacheSize \in 1..3 in the design-level model 2 and in the binding.
 
    Two writer designs and two reader designs are model-checked (MC*.cfg): the as-built pair
    (write straight to the final name, read newest file only) violates ReadOK -- kept as the
@@ -23,15 +32,18 @@ EXTENDS Integers, Sequences, FiniteSets, TLC
 CONSTANTS Names,       \* file names that may appear
           MaxVer,      \* versions 1..MaxVer
           Writer,      \* "direct" | "atomic"         (design-level model only)
-          Reader       \* "newest" | "newestValid"    (design-level model only)
+          Reader,      \* "newest" | "newestValid" | "newestValidWindow" (design-level model only)
+          CacheSize,   \* number of versions kept (design-level model 2; "newestValidWindow" reader)
+          Cleanup      \* "after" | "before": pruning of old versions relative to the write (model 2)
 
 VARIABLES files,      \* [Names -> [ver : 0..MaxVer, len : Nat]] \cup absent marker
           full,       \* [1..MaxVer -> Nat]  payload lengths
           finals,     \* names that hold a complete configuration before / after the update
           vnew,       \* version being written by the update in progress (0 = none)
           done,       \* the update programme has completed
+          base,       \* validated versions on disk (under a final name) when the update in progress started
           prog, pcw   \* design-level model: remaining programme of the update
-vars == <<files, full, finals, vnew, done, prog, pcw>>
+vars == <<files, full, finals, vnew, done, base, prog, pcw>>
 
 Absent == [ver |-> -1, len |-> 0]
 Present(n) == files[n] # Absent
@@ -43,13 +55,16 @@ ValidOnDiskIn(fs) == {fs[n].ver : n \in {m \in finals \cap DOMAIN fs : CompleteI
 AnyCompleteIn(fs, v) == \E n \in DOMAIN fs : CompleteIn(fs, n) /\ fs[n].ver = v
 MaxOf(S) == CHOOSE x \in S : \A y \in S : y <= x
 
+\* what the cache held at the start of the update is not lost at any crash point of the update
+Durable(r) == base # {} => (r = vnew \/ r = MaxOf(base))
 ReadOKIn(fs, r) ==
     LET V == ValidOnDiskIn(fs) IN
-    IF V = {}
-    THEN r = 0 \/ (vnew >= 1 /\ r = vnew /\ AnyCompleteIn(fs, vnew))
-    ELSE \/ r = MaxOf(V)
-         \/ /\ vnew \in V /\ V \ {vnew} # {}
-            /\ r = MaxOf(V \ {vnew})
+    /\ Durable(r)
+    /\ IF V = {}
+       THEN r = 0 \/ (vnew >= 1 /\ r = vnew /\ AnyCompleteIn(fs, vnew))
+       ELSE \/ r = MaxOf(V)
+            \/ /\ vnew \in V /\ V \ {vnew} # {}
+               /\ r = MaxOf(V \ {vnew})
 ReadOK(r) == ReadOKIn(files, r)
 
 (* ---- meaning of the file-system steps (used by the trace spec) ------------------------ *)
@@ -75,7 +90,7 @@ DInit == /\ full = [v \in 1..MaxVer |-> 2]
          /\ \E k \in 0..(MaxVer - 1) :
               /\ files = [n \in Names |-> IF \E v \in 1..k : n = FinalName(v)
                                           THEN [ver |-> Rank(n), len |-> 2] ELSE Absent]
-              /\ vnew = k + 1
+              /\ vnew = k + 1 /\ base = 1..k
               /\ finals = {FinalName(v) : v \in 1..(k + 1)}
               /\ prog = Programme(k + 1)
          /\ done = FALSE /\ pcw = 0
@@ -90,7 +105,7 @@ DStep == /\ prog # <<>> /\ ~done
                                                            ELSE prog' = prog /\ pcw' = pcw + 1
               [] op[1] = "rename" -> /\ FsRename(op[2], op[3]) /\ prog' = Tail(prog) /\ pcw' = 0
          /\ done' = (prog' = <<>>)
-         /\ UNCHANGED <<full, finals, vnew>>
+         /\ UNCHANGED <<full, finals, vnew, base>>
 DSpec == DInit /\ [][DStep]_vars
 
 \* what the reader returns in the current (crash) state
@@ -100,25 +115,32 @@ ReadResult ==
     IF Reader = "newest"
     THEN IF ConfigNames = {} THEN 0
          ELSE IF Complete(NewestName(ConfigNames)) THEN files[NewestName(ConfigNames)].ver ELSE 0
-    ELSE LET ok == {n \in ConfigNames : Complete(n)} IN
+    ELSE LET \* "newestValidWindow": only the newest CacheSize files are looked at ("the rest waits for cleanup")
+             seen == IF Reader = "newestValidWindow"
+                     THEN {n \in ConfigNames : Cardinality({m \in ConfigNames : Rank(m) > Rank(n)}) < CacheSize}
+                     ELSE ConfigNames
+             ok == {n \in seen : Complete(n)} IN
          IF ok = {} THEN 0 ELSE files[NewestName(ok)].ver
 ReadIsValidated == ReadOK(ReadResult)
 
 (* ---- design-level model 2: a HISTORY of updates with crashes, restarts and cache cleanup ------
-   After a crash the next start fetches the next version into whatever the crash left behind;
-   a completed save is followed by the cleanup of cleanupOldVersions: unlink the oldest
-   cache files (partial ones count as files!) until at most CacheSize remain.               *)
-CONSTANT CacheSize
-Programme2(v) == Programme(v) \o << <<"cleanup">> >>
+   After a crash the next start fetches the next version into whatever the crash left behind.
+   Cleanup = "after" : a completed save is followed by the cleanup of cleanupOldVersions: unlink the
+                       oldest cache files (partial ones count as files!) until at most CacheSize remain.
+   Cleanup = "before": the save first makes room: unlink the oldest until at most CacheSize-1 remain,
+                       then writes (control: loses the cache -- with CacheSize = 1 at the first
+                       crash, with larger sizes after CacheSize-1 consecutive interrupted updates). *)
+Programme2(v) == IF Cleanup = "before" THEN << <<"cleanup", CacheSize - 1>> >> \o Programme(v)
+                                       ELSE Programme(v) \o << <<"cleanup", CacheSize>> >>
 D2Init == /\ full = [v \in 1..MaxVer |-> 2]
           /\ files = [n \in Names |-> Absent]
-          /\ vnew = 1 /\ finals = {FinalName(v) : v \in 1..MaxVer}
+          /\ vnew = 1 /\ finals = {FinalName(v) : v \in 1..MaxVer} /\ base = {}
           /\ prog = Programme2(1) /\ done = FALSE /\ pcw = 0
 OldestName(S) == CHOOSE n \in S : \A m \in S : Rank(n) <= Rank(m)
 D2Step == /\ prog # <<>>
           /\ LET op == Head(prog) IN
              IF op[1] = "cleanup"
-             THEN IF Cardinality(ConfigNames) > CacheSize
+             THEN IF Cardinality(ConfigNames) > op[2]
                   THEN /\ FsUnlink(OldestName(ConfigNames)) /\ UNCHANGED <<prog, pcw>>
                   ELSE /\ prog' = Tail(prog) /\ UNCHANGED <<files, pcw>>
              ELSE CASE op[1] = "create" -> /\ FsCreate(op[2], TRUE) /\ prog' = Tail(prog) /\ pcw' = 0
@@ -128,10 +150,12 @@ D2Step == /\ prog # <<>>
                                                                  ELSE prog' = prog /\ pcw' = pcw + 1
                     [] op[1] = "rename" -> /\ FsRename(op[2], op[3]) /\ prog' = Tail(prog) /\ pcw' = 0
           /\ done' = (prog' = <<>>)
-          /\ UNCHANGED <<full, finals, vnew>>
-\* the process stops anywhere (also mid-programme); the next start fetches the next version
+          /\ UNCHANGED <<full, finals, vnew, base>>
+\* the process stops anywhere (also mid-programme); the next start fetches the next version;
+\* what is valid on disk at that moment is what the next update must not lose
 D2CrashRestart == /\ vnew < MaxVer
                   /\ vnew' = vnew + 1 /\ prog' = Programme2(vnew + 1) /\ pcw' = 0 /\ done' = FALSE
+                  /\ base' = ValidOnDiskIn(files)
                   /\ UNCHANGED <<files, full, finals>>
 D2Spec == D2Init /\ [][D2Step \/ D2CrashRestart]_vars
 =============================================================================
